@@ -34,7 +34,7 @@ import struct
 
 from vlib import core, obs, emu, synth, emuhist
 
-TAGS = ("LST", "LSX", "DEC", "SYS", "WIT", "ACC", "SUM")
+TAGS = ("LST", "LSX", "DEC", "SYS", "WIT", "ACC", "ACCE", "SUM", "SUME")
 # (configuration, how it must fail, why, model it is run on)
 NEGATIVES = [
     ("Catalogue_NegNoExc.cfg", "inv", "no excepted codes: the ignored value byte of OB?/OU? must break ProbeConsistent", "O"),
@@ -496,6 +496,8 @@ def _main(ck, bdir, cat, rng, scratch, fast, tier):
     for w in lines.get("WIT", []):
         wit[(w["mc"], w["ev"]["c"], w["ev"]["v"])] = w
     acc = {(a["mc"], a["c"], a["v"]) for a in lines.get("ACC", [])}
+    # unlisted codes of the base model that the specification accepts after the thread has ended (ProbeEnded)
+    acce = {(a["mc"], a["c"], a["v"]) for a in lines.get("ACCE", [])}
     listed = {(mc, e["c"], e["v"]) for mc in cat for e in cat[mc]["events"]}
     canon = sysrec["canon"]
     space = [(mc, c, v) for mc in cat for c in range(1, nidx + 1) for v in range(1, nidx + 1)]
@@ -563,7 +565,8 @@ def _main(ck, bdir, cat, rng, scratch, fast, tier):
             continue
         ndead += 1
         m = key[0] + chr_of(key[1]) + chr_of(key[2])
-        probes.append(("unlisted+ended", key, key[0], pre0 + [ohe_ev, {"th": 1, "m": m, "payload": ""}], 2, key in acc, None))
+        probes.append(("unlisted+ended", key, key[0], pre0 + [ohe_ev, {"th": 1, "m": m, "payload": ""}], 2,
+                       (key in acce) if key[0] == "O" else (key in acc), None))
     # the listed flush events are processed in that context (non-vacuity of the family)
     for v in "[]":
         k = ("O", idx("F"), idx(v))
@@ -627,6 +630,10 @@ def _main(ck, bdir, cat, rng, scratch, fast, tier):
             ck.violation("unlisted code %s is handled by model %s: trace %s (%s) -> ovniemu verdict %s, refused event #%s "
                          "(expected: the probe #%d refused)" % (code, cat[mc]["name"], names, kind, o["verdict"], o["refused_at"], at),
                          bundle, sig="unlisted-handled:" + code)
+    nended = sum(x.get("ended_probes", 0) for x in lines.get("SUME", []))
+    if nended == 0 or not acce:
+        raise core.MachineryError("Catalogue.tla: ProbeEnded was never taken / accepted nothing (ended probes %d, accepted %d)" % (nended, len(acce)))
+    ck.notes["ended_context"] = {"tlc_ended_probes": nended, "spec_accepts_unlisted_after_OHe": len(acce)}
     ck.notes["probes"] = dict(counts, code_space=len(space), unlisted_selected=len(sel), accepted_unlisted=len(acc))
     for p in probes[:2] + probes[len(listed):len(listed) + 2]:
         ck.sample({"kind": p[0], "code": p[1][0] + chr_of(p[1][1]) + chr_of(p[1][2]), "trace": [x["m"] for x in p[3]], "expect_processed": p[5]})
